@@ -137,6 +137,52 @@ def sequence_header_base_defaults(base, version=2, profile="HQ", clean=(16, 16),
     return b.tobytes()
 
 
+def sequence_header_all_custom(f, frame_rate=(25, 1), aspect=(1, 1)):
+    """every source-parameter group coded explicitly (all custom flags set, index 0 where an index exists)"""
+    b = Bits()
+    b.uint(f.version)
+    b.uint(0)
+    b.uint(PROFILE[f.profile])
+    b.uint(f.level)
+    b.uint(f.base)
+    b.bool(1)
+    b.uint(f.width)
+    b.uint(f.height)
+    b.bool(1)
+    b.uint(0)  # colour difference format 4:4:4
+    b.bool(1)
+    b.uint(0)  # progressive
+    b.bool(1)
+    b.uint(0)  # frame rate index 0: explicit numerator / denominator
+    b.uint(frame_rate[0])
+    b.uint(frame_rate[1])
+    b.bool(1)
+    b.uint(0)  # pixel aspect ratio index 0: explicit
+    b.uint(aspect[0])
+    b.uint(aspect[1])
+    b.bool(1)  # clean area
+    b.uint(f.width)
+    b.uint(f.height)
+    b.uint(0)
+    b.uint(0)
+    b.bool(1)
+    b.uint(0)  # signal range index 0: explicit offsets / excursions
+    b.uint(0)
+    b.uint(255)
+    b.uint(128)
+    b.uint(255)
+    b.bool(1)
+    b.uint(0)  # colour spec index 0: explicit primaries, matrix, transfer function
+    b.bool(1)
+    b.uint(0)
+    b.bool(1)
+    b.uint(0)
+    b.bool(1)
+    b.uint(0)
+    b.uint(1 if f.fields else 0)
+    return b.tobytes()
+
+
 def transform_parameters(b, f, profile):
     b.uint(f.wavelet)
     b.uint(f.depth)
